@@ -1,6 +1,7 @@
 #!/bin/bash
 # tools/trybenign.sh <patch>... : apply a behaviour-preserving change to /repo, confirm build + suite, run every quick check,
 # undo. Any VIOLATION / non-zero exit is a false alarm of the machinery (or the change is not benign after all).
+export VERIF_NO_EVIDENCE=1
 cd "$(dirname "$0")/.."
 export GOFLAGS=-mod=mod GOPROXY=off GOSUMDB=off GOTOOLCHAIN=local
 for p in "$@"; do
